@@ -32,8 +32,9 @@ CONST_BASE = dict(Keys={"a", "b"}, KeyCost=6, FootBase=5, RgCost=3, NCols=NCOLS,
 # ----------------------------------------------------------------------------------------------
 
 def model_cfg(path, *, vals, maxops, kv, app, fail, meta, trunc_kv, trunc_app, restore, chunk_sizes=(1, 3), restore_truncates=True,
-              ncols=2, invariants=(), properties=(), spec="Spec", keys=("a", "b")):
+              ncols=2, invariants=(), properties=(), spec="Spec", keys=("a", "b"), fail_kinds=("encode", "codec")):
     c = dict(CONST_BASE)
+    c["FailKinds"] = set(fail_kinds)
     c.update(Keys=set(keys), Vals=set(vals), NCols=ncols, ChunkSizes=set(chunk_sizes), MaxOps=maxops,
              MetaFileAllowed=meta, EnableKv=kv, EnableAppend=app, EnableFail=fail,
              TruncateAfterKv=trunc_kv, TruncateAfterAppend=trunc_app, RestoreOnFailure=restore,
@@ -46,12 +47,12 @@ CONTRACT_INV = ["Openable", "RowsReadable"]
 CONTRACT_PROP = ["DataIntact", "AppendOnly", "KvExact", "FailureKeepsVersion"]
 
 
-def export_histories(work, *, vals, maxops, kv, app, fail, meta, keys=("a", "b")):
+def export_histories(work, *, vals, maxops, kv, app, fail, meta, keys=("a", "b"), fail_kinds=("encode", "codec")):
     """TLC enumerates all histories (repaired variant: the expectations are the contract's)."""
     cfg = os.path.join(work, "export.cfg")
     model_cfg(cfg, vals=vals, maxops=maxops, kv=kv, app=app, fail=fail, meta=meta, trunc_kv=True,
               trunc_app=True, restore=True, chunk_sizes=(1,), ncols=NCOLS, invariants=["Export"], spec="ESpec",
-              keys=keys)
+              keys=keys, fail_kinds=fail_kinds)
     res = T.run_tlc("SingleFileExport", cfg, work, timeout=3000)
     if not res.completed:
         raise T.TLCError("export did not complete:\n" + res.out[-3000:])
@@ -63,26 +64,37 @@ def export_histories(work, *, vals, maxops, kv, app, fail, meta, keys=("a", "b")
 # real side
 # ----------------------------------------------------------------------------------------------
 
-def frame(pd, first_row, nrows, bad=None):
-    """rows first_row..first_row+nrows-1, three text columns with distinctive cells.
-    bad = (row_index_within_frame, col) puts an un-encodable object there."""
+CATS = ["xxx", "yyy", "zzz", "www", "unused"]
+
+
+def cell_text(row, c, kind):
+    # categorical columns use one fixed category list in every batch (differing lists are KF-C07-1's subject)
+    return "xyzw"[(row + c) % 4] * 3 if kind == "cat" else "r%04dc%d-%s" % (row, c, "xyzw"[(row + c) % 4] * 3)
+
+
+def frame(pd, first_row, nrows, bad=None, badval=None, kinds=None):
+    """rows first_row..first_row+nrows-1, three text columns with distinctive cells (kinds: per column "str" | "cat").
+    bad = (row_index_within_frame, col) puts an un-encodable object (or badval[0], e.g. a missing value) there."""
+    kinds = kinds or ["str"] * NCOLS
     cols = {}
     for c in range(1, NCOLS + 1):
-        vals = ["r%04dc%d-%s" % (first_row + i, c, "xyzw"[(first_row + i + c) % 4] * 3) for i in range(nrows)]
-        cols["c%d" % c] = pd.Series(vals, dtype="str") if nrows or True else vals
-    df = pd.DataFrame(cols)
-    if bad is not None:
-        r, c = bad
-        col = df["c%d" % c].astype(object)
-        col.iloc[r] = {}
-        df["c%d" % c] = col
-    return df
+        vals = [cell_text(first_row + i, c, kinds[c - 1]) for i in range(nrows)]
+        if bad is not None and bad[1] == c:
+            vals[bad[0]] = {} if badval is None else badval[0]
+            cols["c%d" % c] = (pd.Series(pd.Categorical(vals, categories=CATS)) if kinds[c - 1] == "cat" and badval is not None
+                               else pd.Series(vals, dtype=object))
+        elif kinds[c - 1] == "cat":
+            cols["c%d" % c] = pd.Series(pd.Categorical(vals, categories=CATS))
+        else:
+            cols["c%d" % c] = pd.Series(vals, dtype="str")
+    return pd.DataFrame(cols)
 
 
-def expected_rows(nrows):
+def expected_rows(nrows, kinds=None):
+    kinds = kinds or ["str"] * NCOLS
     out = []
     for i in range(nrows):
-        out.append(tuple("r%04dc%d-%s" % (i, c, "xyzw"[(i + c) % 4] * 3) for c in range(1, NCOLS + 1)))
+        out.append(tuple(cell_text(i, c, kinds[c - 1]) for c in range(1, NCOLS + 1)))
     return out
 
 
@@ -123,23 +135,26 @@ def replay_history(args):
         init = hist[0]
         kv0 = {k: conc_value(0, k, init["kv"][k]) for k in KEYS if init["kv"][k] >= 0}
         nrows = init["nrg"] * ROWS_PER_RG
-        df0 = frame(pd, 0, nrows)
+        kinds = init.get("kinds")
+        df0 = frame(pd, 0, nrows, kinds=kinds)
         if init["meta"]:
             ds = os.path.join(d, "ds")
-            fp.write(ds, frame(pd, 0, 2), file_scheme="hive", custom_metadata=dict(kv0))
+            fp.write(ds, frame(pd, 0, 2, kinds=kinds), file_scheme="hive", custom_metadata=dict(kv0))
             path = os.path.join(ds, "_metadata")
             datapath = ds
             nrows = 2
         else:
             path = os.path.join(d, "f.parquet")
             datapath = None
-            fp.write(path, df0, row_group_offsets=([0] if nrows else None), custom_metadata=dict(kv0))
+            # "required": the file declares its columns non-nullable (a later append with a missing value must be refused)
+            fp.write(path, df0, row_group_offsets=([0] if nrows else None), custom_metadata=dict(kv0),
+                     has_nulls=(False if init.get("required") else True))
         conc = dict((k.encode(), (v.encode() if isinstance(v, str) else v)) for k, v in kv0.items())
         st = read_state(fp, path, datapath)
         if st["open_exc"] or not st["tail"]["strict"]:
             out["ops"].append({"step": 0, "viol": [{"what": "initial write unreadable", "exc": st["open_exc"]}]})
             return out
-        exp_rows = expected_rows(nrows)
+        exp_rows = expected_rows(nrows, kinds)
         prev_model_flen = init.get("flen")
         i = 1
         step = 0
@@ -181,7 +196,7 @@ def replay_history(args):
                         except AttributeError:
                             pass
                 elif opr["kind"] == "refuse":
-                    dfa = frame(pd, nrows, ROWS_PER_RG)
+                    dfa = frame(pd, nrows, ROWS_PER_RG, kinds=kinds)
                     if opr["why"] == "columns":
                         variant = (hid + step) % 3
                         if variant == 0:
@@ -198,11 +213,13 @@ def replay_history(args):
                     bad = None
                     comp = None
                     rp = 400 if opr.get("big") else ROWS_PER_RG      # "big": more bytes than the footer they overwrite
-                    if opr["failg"] and opr.get("why", "encode") == "encode":
+                    badval = None
+                    if opr["failg"] and opr.get("why", "encode") in ("encode", "null"):
                         bad = ((opr["failg"] - 1) * rp + 1, opr["failc"])
+                        badval = (None,) if opr["why"] == "null" else None
                     elif opr["failg"]:
                         comp = {"c%d" % c: ("NOSUCHCODEC" if c == opr["failc"] else None) for c in range(1, NCOLS + 1)}
-                    dfa = frame(pd, nrows, k * rp, bad)
+                    dfa = frame(pd, nrows, k * rp, bad, badval, kinds=kinds)
                     offs = [j * rp for j in range(max(k, 1))]
                     fp.write(path, dfa, append=True, row_group_offsets=offs, open_with=rec.open_with, compression=comp)
             except BaseException as e:  # noqa
@@ -234,7 +251,7 @@ def replay_history(args):
                 want_rows, want_kv = None, None
             if raised is None and not want_raise:
                 if opr["kind"] == "app" and opr["k"] > 0:
-                    exp_rows = exp_rows + expected_rows(nrows + opr["k"] * ROWS_PER_RG)[nrows:]
+                    exp_rows = exp_rows + expected_rows(nrows + opr["k"] * ROWS_PER_RG, kinds)[nrows:]
                     nrows += opr["k"] * ROWS_PER_RG
                 conc = new_conc
             if not tv["lenient"] or st["open_exc"]:
